@@ -454,8 +454,18 @@ func applyMetricsOperatorOnSegments(mQuery *structs.MetricsQuery, allSearchReqes
 			continue
 		}
 
+		// Only the request of an unrotated segment carries the shard id that finds the in-memory
+		// tags tree holder; the rotated requests of the same tthBaseDir are listed first.
+		tthSearchReq := allMSearchReqs[0]
+		for _, mSeg := range allMSearchReqs {
+			if mSeg.Mid != "" {
+				tthSearchReq = mSeg
+				break
+			}
+		}
+
 		err = tagstree.SearchAndInsertTSIDs(mQuery, allMatchedTsids, metricNames, tthBaseDir,
-			allMSearchReqs[0], qid)
+			tthSearchReq, qid)
 		if err != nil {
 			mRes.AddError(err)
 			continue
